@@ -111,14 +111,31 @@ fn c20(seed: u64) {
             fail("control: plain Vec read as zero/not released at dealloc (monitor broken)");
         }
     }
+    // a block still allocated when its handle goes away (bytes shared between handles) is judged at the
+    // end of the round, when every handle has been dropped
+    let pending: std::cell::RefCell<Vec<(usize, String)>> = std::cell::RefCell::new(Vec::new());
     let check = |slot: usize, what: &str| {
         let (st, nz) = allocmon::verdict(slot);
-        allocmon::unwatch(slot);
         if st == 0 {
-            fail(&format!("{}: block was never released", what));
+            pending.borrow_mut().push((slot, what.to_string()));
+            return;
         }
+        allocmon::unwatch(slot);
         if st == 2 {
             fail(&format!("{}: {} non-zero secret bytes at release", what, nz));
+        }
+    };
+    let quiescent = || {
+        for (slot, what) in pending.borrow_mut().drain(..) {
+            let (st, nz) = allocmon::verdict(slot);
+            allocmon::unwatch(slot);
+            if st == 0 {
+                println!("KMIRI-INCONCLUSIVE {}: block never released although every handle was dropped (leak)", what);
+                std::process::exit(3);
+            }
+            if st == 2 {
+                fail(&format!("{}: {} non-zero secret bytes at release", what, nz));
+            }
         }
     };
     for round in 0..3 {
@@ -197,8 +214,44 @@ fn c20(seed: u64) {
             }
         }
         cases += 3;
+        quiescent();
     }
     println!("KMIRI-OK c20 cases={}", cases);
+}
+
+/// Clones released by several threads at once. Run with -Zmiri-many-seeds and a raised preemption
+/// rate so that Miri's scheduler tries different interleavings of the release paths.
+fn c20_conc(seed: u64) {
+    let mut rng = Rng(seed);
+    let mut cases = 0;
+    for round in 0..6usize {
+        let n = 2 + round % 2;
+        let raw = rng.bytes(32);
+        let k0 = if round % 2 == 0 { PrivateKey::try_from(&raw[..]).unwrap() } else { PrivateKey::generate() };
+        let mut keys = vec![k0];
+        for i in 1..n {
+            let c = keys[i - 1].clone();
+            keys.push(c);
+        }
+        let slots: Vec<usize> = keys.iter().map(|k| allocmon::watch(k.as_bytes().as_ptr(), 32)).collect();
+        let handles: Vec<_> = keys.drain(..).map(|k| std::thread::spawn(move || drop(k))).collect();
+        for h in handles {
+            h.join().unwrap();
+        }
+        for slot in slots {
+            let (st, nz) = allocmon::verdict(slot);
+            allocmon::unwatch(slot);
+            if st == 0 {
+                println!("KMIRI-INCONCLUSIVE concurrent release: block never released (leak)");
+                std::process::exit(3);
+            }
+            if st == 2 {
+                fail(&format!("PrivateKey released by {} threads at once: {} non-zero secret bytes at release", n, nz));
+            }
+            cases += 1;
+        }
+    }
+    println!("KMIRI-OK c20-conc cases={}", cases);
 }
 
 struct Chop<'a>(&'a [u8], usize, usize);
@@ -274,6 +327,7 @@ fn main() {
         "c18-full" => c18(seed, false, true),
         "c18-null-full" => c18(seed, true, true),
         "c20" => c20(seed),
+        "c20-conc" => c20_conc(seed),
         "smoke" => smoke(seed, false),
         "smoke-full" => smoke(seed, true),
         _ => fail("unknown mode"),
